@@ -142,6 +142,30 @@ Section CropN.
     if gtb (oi_sumk x / oi_tsumk x) one then zero
     else oi_gtw x * dec 7 1 * (cg (oi_pro_lo x) i + (cg (oi_pro_hi x) i - cg (oi_pro_lo x) i) * oi_sumk x / oi_tsumk x) * oi_reduk x
          - cg (oi_mterm x) i.
+  (* ------------------------------------------------------------------ *)
+  (* 9. daily gross assimilation from the light-response values (crop.go:919-978, inside radia()).
+        DGAC / DGAO (assimilation of a clear / overcast day), DLE, DRC, MAINTS*TEFF come from the radiation and
+        light-response code that is not modelled.  NOT tied bit for bit (these are locals of the unexported radia):
+        the hypothesis of the theorem and its conclusion GTW >= 0 are evaluated on every traced crop day instead. *)
+  Record as_in := { as_rad : T; as_sund : T; as_dle : T; as_dgac : T; as_dgao : T; as_drc : T;
+                    as_trrel : T; as_vswell : T; as_maint_pot : T (* MAINTS*TEFF *); as_cold : bool (* TEMP < MINTMP *) }.
+
+  Definition assim_dtga (x : as_in) : T :=
+    if as_rad x =? zero then
+      let sund := if gtb (as_sund x) (as_dle x) then as_dle x else as_sund x in
+      sund / as_dle x * as_dgac x + (one - sund / as_dle x) * as_dgao x
+    else
+      let fov0 := (as_drc x - ofZ 1000000 * as_rad x * one) / (dec 8 1 * as_drc x) in
+      let fov1 := if gtb fov0 one then one else fov0 in
+      let fov := if fov1 <? zero then zero else fov1 in
+      fov * as_dgao x + (one - fov) * as_dgac x.
+
+  (* (GPHOT, MAINT) *)
+  Definition assim_of (x : as_in) : T * T :=
+    let g0 := assim_dtga x * ofZ 30 / ofZ 44 in
+    let g1 := if as_trrel x <? as_vswell x then g0 * as_trrel x else g0 in
+    let maint := if g1 <? as_maint_pot x then g1 else as_maint_pot x in
+    (if as_cold x then maint else g1, maint).
 End CropN.
 
 (* ---------------------------------------------------------------------- *)
